@@ -87,7 +87,17 @@ def handle (j : Json) : Except String Json := do
       | .ok w => [("outcome", jstr "ok"), ("warned", jbool w)]
       | .raised e => [("outcome", jstr "raised"), ("exc", jstr (excName e))]
     let tc := match res.1 target with | some b => jchars b | none => Json.null
-    pure (jobj (oc ++ [("target", jchars target), ("target_content", tc), ("files", jarr filesOut)]))
+    -- the rank the table of rules gives each issue (by the registered rule it comes from)
+    let issueRules := match j.getObjVal? "issue_rules" with
+      | .ok (.arr xs) => xs.toList.filterMap (fun (x : Json) => x.getStr?.toOption)
+      | _ => ([] : List String)
+    let ruleRanks := issueRules.map fun r =>
+      match ruleRank r with
+      | some .error => jstr "error"
+      | some .warning => jstr "warning"
+      | none => jstr "undecided"
+    pure (jobj (oc ++ [("target", jchars target), ("target_content", tc), ("files", jarr filesOut),
+                       ("rule_ranks", jarr ruleRanks)]))
   | "savepath" =>
     pure (jchars (savePath (← getStr j "path").toList (← getStr j "backend").toList))
   | "rdftarget" =>
